@@ -437,6 +437,7 @@ def _flatten_concat(t):
     return [t]
 
 
+SEPS = ("/", "\\")
 _uf_cache = {}
 
 
@@ -572,7 +573,6 @@ def _repl_term(st, t, ca, cb, seen=None):
 
 
 _lower_f = [None]
-SEPS = ("/", "\\")
 
 
 def lower_fn():
@@ -581,11 +581,12 @@ def lower_fn():
     return _lower_f[0]
 
 
-def s_lower(st, s):
-    if isinstance(s, C):
-        return C(s.v.lower())
+def _lower_term(st, t):
+    """L(t) with the axioms of the `lower` specification instantiated on t (recursively on the parts of a
+    concatenation that is split at constant separators)"""
     L = lower_fn()
-    t = s.t
+    if z3.is_string_value(t):
+        return z3.StringVal(t.as_string().lower())
     o = L(t)
     st.axiom(L(o) == o)
     for c in SEPS:
@@ -593,9 +594,36 @@ def s_lower(st, s):
         st.axiom(z3.Contains(o, cs) == z3.Contains(t, cs))
         st.axiom(z3.PrefixOf(cs, o) == z3.PrefixOf(cs, t))
         st.axiom(z3.SuffixOf(cs, o) == z3.SuffixOf(cs, t))
+        st.axiom((t == cs) == (o == cs))
     st.axiom((z3.Length(o) == 0) == (z3.Length(t) == 0))
-    st.note("str.lower as uninterpreted function with axioms (idempotent; separators fixed, neither created nor removed; emptiness preserved)")
-    return S("str", o)
+    st.axiom(z3.Length(o) >= z3.Length(t))
+    parts = _flatten_concat(t)
+    if len(parts) > 1:
+        # length of lower is additive over concatenation (only Final_Sigma is context dependent, 1 char either way)
+        st.axiom(z3.Length(o) == z3.Sum([z3.Length(_lower_term(st, pk)) for pk in parts]))
+        # separator homomorphism: split at the first constant part that is a single separator
+        for k, pk in enumerate(parts):
+            if z3.is_string_value(pk) and pk.as_string() in SEPS and 0 < k < len(parts) - 1:
+                left = parts[:k]
+                right = parts[k + 1:]
+                lt = left[0] if len(left) == 1 else z3.Concat(*left)
+                rt = right[0] if len(right) == 1 else z3.Concat(*right)
+                st.axiom(o == z3.Concat(_lower_term(st, lt), pk, _lower_term(st, rt)))
+                break
+            if z3.is_string_value(pk) and pk.as_string() in SEPS and k == 0:
+                right = parts[1:]
+                rt = right[0] if len(right) == 1 else z3.Concat(*right)
+                st.axiom(o == z3.Concat(pk, _lower_term(st, rt)))
+                break
+    return o
+
+
+def s_lower(st, s):
+    if isinstance(s, C):
+        return C(s.v.lower())
+    st.note("str.lower as uninterpreted function with axioms (idempotent; separators fixed, neither created nor removed; "
+            "emptiness preserved; never shorter; length additive over concatenation; distributes over concatenation at a separator)")
+    return S("str", _lower_term(st, s.t))
 
 
 def lower_concat_axiom(st, x, c, y):
@@ -657,7 +685,12 @@ def s_index(st, s, i, g):
         n = z3.Length(t)
         st.pend(zand(g, z3.Or(it < -n, it >= n)), "IndexError", "string index out of range")
         idx = z3.If(it < 0, it + n, it)
-        return S("str", z3.SubString(t, idx, 1))
+        res = z3.SubString(t, idx, 1)
+        if isinstance(i, C) and i.v == 0:
+            for c in SEPS:
+                concat_edge_facts(st, t, c)
+                st.axiom((res == z3.StringVal(c)) == z3.PrefixOf(z3.StringVal(c), t))
+        return S("str", res)
     if isinstance(s, O):
         return fresh(s.sort, "item")
     return type_error(st, g, "%s is not subscriptable" % kind(s))
@@ -698,9 +731,35 @@ def s_contains(st, hay, needle):
     return mk_bool(z3.Contains(str_of(hay), str_of(needle)))
 
 
+def concat_edge_facts(st, t, c):
+    """for a concatenation t = p1 ++ ... ++ pn and a single character c: the first (last) character of t is
+    that of its first (last) non-empty part -- valid facts that spare the solver a word-equation search"""
+    parts = _flatten_concat(t)
+    if len(parts) < 2:
+        return
+    cs = z3.StringVal(c)
+    # suffix: walk from the right
+    cond = BT
+    for k in range(len(parts) - 1, -1, -1):
+        pk = parts[k]
+        st.axiom(z3.Implies(z3.And(cond, z3.Length(pk) > 0), z3.SuffixOf(cs, t) == z3.SuffixOf(cs, pk)))
+        cond = z3.And(cond, z3.Length(pk) == 0)
+        if k < len(parts) - 3:
+            break
+    cond = BT
+    for k in range(len(parts)):
+        pk = parts[k]
+        st.axiom(z3.Implies(z3.And(cond, z3.Length(pk) > 0), z3.PrefixOf(cs, t) == z3.PrefixOf(cs, pk)))
+        cond = z3.And(cond, z3.Length(pk) == 0)
+        if k >= 2:
+            break
+
+
 def s_startswith(st, s, p, ends=False):
     if isinstance(s, C) and isinstance(p, C):
         return C(s.v.endswith(p.v) if ends else s.v.startswith(p.v))
+    if _one_char(p):
+        concat_edge_facts(st, str_of(s), p.v)
     if ends:
         return mk_bool(z3.SuffixOf(str_of(p), str_of(s)))
     return mk_bool(z3.PrefixOf(str_of(p), str_of(s)))
